@@ -81,7 +81,7 @@ def _sub_key(n):
     return None
 
 
-def straightline(src, fn, targets, params, tables, consts):
+def straightline(src, fn, targets, params, tables, consts, abstract=()):
     """Symbolic execution of the straight-line arithmetic at the top level of `fn` up to the assignment of the last
     target: every value is a real-number term (string) over the parameters.  Accepted statements: `v = <expr>`,
     `v op= <expr>`, the identity copies `v = np.array(v|v_in, ...)`, in-place `np.deg2rad(v, v)`; <expr> is built from
@@ -89,6 +89,8 @@ def straightline(src, fn, targets, params, tables, consts):
     Statements that do not assign any name the targets depend on are skipped only if they are docstrings, `if` blocks
     that raise or fill the constant tables, or assignments of names never used afterwards (checked: an unknown
     name inside a needed expression raises).  Returns None when a target is never assigned (as-found shapes)."""
+    # targets None: run to the `return a, b[, c]` statement and give the returned names' terms;
+    # abstract: names whose value is replaced by the name itself once assigned (the output stage is a function of x, y, z)
     env = dict((k, v) for k, v in params.items())
 
     def ex(n):
@@ -114,10 +116,14 @@ def straightline(src, fn, targets, params, tables, consts):
             raise TranslateError("%s: subscript at line %d" % (fn.name, n.lineno))
         if isinstance(n, ast.Call) and len(n.args) == 1 and not n.keywords:
             f = n.func.id if isinstance(n.func, ast.Name) else (n.func.attr if isinstance(n.func, ast.Attribute) and _is_name(n.func.value, "np") else None)
-            if f in ("sin", "cos"):
+            if f in ("sin", "cos", "sqrt"):
                 return "(%s %s)" % (f, ex(n.args[0]))
             if f == "deg2rad":
                 return "(%s * D2R)" % ex(n.args[0])
+        if isinstance(n, ast.Call) and len(n.args) == 2 and not n.keywords and (_is_name(n.func, "arctan2") or _is_attr(n.func, "np", "arctan2")):
+            return "(atan2 %s %s)" % (ex(n.args[0]), ex(n.args[1]))
+        if isinstance(n, ast.BinOp) and isinstance(n.op, ast.Mod):
+            return "(Rmod %s %s)" % (ex(n.left), ex(n.right))
         raise TranslateError("%s: expression at line %d is outside the translatable fragment" % (fn.name, getattr(n, "lineno", 0)))
 
     done = set()
@@ -141,14 +147,22 @@ def straightline(src, fn, targets, params, tables, consts):
             try:
                 env[t] = ex(v)
             except TranslateError:
-                if t in targets:
+                if targets and t in targets:
                     raise
                 env.pop(t, None)          # not translatable: the name becomes unknown (an error if needed later)
-            if t in targets:
+            if t in abstract and t in env:
+                env[t] = t
+            if targets and t in targets:
                 done.add(t)
                 if done == set(targets):
                     return tuple(env[k] for k in targets)
             continue
+        if isinstance(st, ast.Return) and targets is None:
+            v = st.value
+            _need(isinstance(v, ast.Tuple) and all(isinstance(e, ast.Name) for e in v.elts), "%s returns a tuple of names" % fn.name)
+            for e in v.elts:
+                _need(e.id in env, "%s: returned name %r has no translatable value" % (fn.name, e.id))
+            return tuple(env[e.id] for e in v.elts)
         if isinstance(st, ast.AugAssign) and isinstance(st.target, ast.Name) and type(st.op) in (ast.Add, ast.Sub, ast.Mult, ast.Div):
             t = st.target.id
             op = {ast.Add: "+", ast.Sub: "-", ast.Mult: "*", ast.Div: "/"}[type(st.op)]
@@ -444,6 +458,16 @@ def extract(path):
     }
     if not c["lat_atan2"]["euler"]:
         c["formulas"]["euler"] = None      # as-found code never forms x, y, z
+    # output stage: the returned (longitude, latitude) as terms over x, y, z (arctan2 -> atan2, % -> Rmod, passed in as parameters)
+    c["outstage"] = {
+        "euler": straightline(s, s.funcs["euler"], None, {"ai": "ai", "bi": "bi"},
+                              {"psi": "psi", "stheta": "stheta", "ctheta": "ctheta", "phi": "phi"}, {"D2R": "D2R", "R2D": "R2D", "PI": "PI"},
+                              abstract=("x", "y", "z")) if c["lat_atan2"]["euler"] else None,
+        "xyz2thetaphi": straightline(s, s.funcs["_xyz2thetaphi"], None, {"x": "x", "y": "y", "z": "z"}, {}, {})
+        if c["lat_atan2"]["xyz2eq"] else None,
+    }
+    for k, v in c["outstage"].items():
+        _need(v is None or len(v) == 2, "%s returns (longitude, latitude)" % k)
     # shiftra just forwards
     rets = [n for n in ast.walk(s.funcs["shiftra"]) if isinstance(n, ast.Return)]
     _need(len(rets) == 1 and isinstance(rets[0].value, ast.Call) and _is_name(rets[0].value.func, "shiftlon"), "shiftra calls shiftlon")
@@ -536,6 +560,16 @@ def emit(c):
             w("Definition %s_xyz_src %s : option (R * R * R) := None.  (* the code does not form x, y, z *)" % (k, sig[k]))
         else:
             w("Definition %s_xyz_src %s : option (R * R * R) :=\n  Some (%s,\n        %s,\n        %s)." % (k, sig[k], f[0], f[1], f[2]))
+    w("")
+    w("(* the output stage: the returned (longitude, latitude) as functions of x, y, z, translated from the source;")
+    w("   numpy's arctan2 and float % are parameters (Model.atan2, Model.Rmod are plugged in by Proofs.v) *)")
+    osig = {"euler": "(atan2 Rmod : R -> R -> R) (psi x y z : R)", "xyz2thetaphi": "(atan2 Rmod : R -> R -> R) (x y z : R)"}
+    for k in ("euler", "xyz2thetaphi"):
+        f = c["outstage"][k]
+        if f is None:
+            w("Definition %s_out_src %s : option (R * R) := None.  (* as-found shape (arcsin) *)" % (k, osig[k]))
+        else:
+            w("Definition %s_out_src %s : option (R * R) :=\n  Some (%s,\n        %s)." % (k, osig[k], f[0], f[1]))
     w("")
     w("(* shiftlon (exact rationals, Q) *)")
     w("Definition shift_mod : Q := %s." % _q(c["shift_mod"]))
